@@ -132,6 +132,9 @@ def run(tier, seed, rng):
         cfg = kfacgen.gen_cfg(rng, tier, worlds=(1, 2, 4, 4, 6, 8), allow_callable=False)
         if cfg['W'] >= 4 and rng.random() < 0.5:      # favour HYBRID: some rank is neither worker nor in the worker's row
             cfg['k'] = rng.choice([d for d in range(2, cfg['W']) if cfg['W'] % d == 0]); cfg['grad_worker_fraction'] = cfg['k'] / cfg['W']
+        if kk % 6 == 5:
+            # the fraction typed as a 7-digit decimal: 6 * 0.3333333 = 1.9999998 is within the constructor's tolerance of 2 and means 2
+            cfg['W'], cfg['k'], cfg['grad_worker_fraction'] = 6, 2, 0.3333333
         cfg['ddp_via_all_gather'] = True
         cfg['kl_clip'] = None
         cfg['factor_update_steps'] = rng.choice([1, 1, 2]); cfg['inv_update_steps'] = rng.choice([1, 2, 3])
